@@ -95,6 +95,13 @@ def run(report: Report, tier, seed):
     if rbad:
         b = rbad[0]
         fails = [{"input": {"recursion": b["job"]}, "mismatches": [{"what": f"recursion scenario {b['job']} v{b['problems'][0].get('version')} {b['problems'][0].get('setting')}: {b['problems'][0]['what']}"}]}] + fails
+    # the recorded optimiser finding O3.4, shown on a fixed program and attributed exactly (disappears when the multiply-stored slot is withheld)
+    from . import opt_native
+    w34 = opt_native.o34_witness("result")
+    report.bounded.append(Bounded(function="slot optimiser on a slot that is stored twice and loaded once right after a store", contract="the subroutine returns its result",
+                                  bound="one fixed program (the example of known_findings O3.4)", cases=1, distinct_nontrivial=1, failures=1 if w34 else 0))
+    if w34:
+        report.violation(Violation(key="O3.4:store-elsewhere+adjacent-store-load", what=w34["what"][:400], replay=w34, confirmed_native=True))
     from vf.core import use_repo
     use_repo()
     from . import graph_native
@@ -124,6 +131,11 @@ def run(report: Report, tier, seed):
 def replay(data):
     r = data.get("replay") or {}
     nat = r.get("native") or r
+    if (nat.get("input") or {}).get("o34"):
+        from . import opt_native
+        w = opt_native.o34_witness(nat["input"]["o34"])
+        print(w["what"] if w else "not reproduced")
+        return 1 if w else 0
     if (nat.get("input") or {}).get("abisub"):
         from . import abisub
         out = abisub.case(tuple(nat["input"]["abisub"]))
